@@ -117,7 +117,14 @@ func c14Nibbles(c *Ctx) {
 			return op == token.EQL && isC && k == want && isNibbleOf(x, high)
 		})
 	}
-	flagOK := core.AnyFact(func(f core.Fact) bool { return eqConst(f, true, 0) || eqConst(f, true, 1) })
+	// the nibble is unsigned, so `flag <= 1` / `flag < 2` say the same as the two equalities
+	atMostOne := func(f core.Fact) bool {
+		return core.CmpFact(f, func(op token.Token, x, y ssa.Value) bool {
+			k, isC := core.ConstInt(y)
+			return isC && isNibbleOf(x, true) && ((op == token.LEQ && k == 1) || (op == token.LSS && k == 2))
+		})
+	}
+	flagOK := core.AnyFact(func(f core.Fact) bool { return eqConst(f, true, 0) || eqConst(f, true, 1) || atMostOne(f) })
 	w := core.CutReach(core.CutSpec{Fn: dec, Cut: func(b *ssa.BasicBlock, i int) bool { return flagOK(core.EdgeFacts(b, i)) }, Target: core.SuccessTarget(dec, nil)})
 	r.Check(w == nil, "R5.path-prefix", core.FuncName(dec)+" flag-in-{0,1}", p.Pos(dec.Pos()),
 		"decoding succeeds only after the high nibble of the first byte compared equal to 0 or to 1", "a first byte whose high nibble is neither 0 nor 1 can decode (several encodings of one path; re-encoding changes the bytes): "+p.PathString(w))
